@@ -29,6 +29,7 @@ type specInfo struct {
 	resT   types.Type
 	pkg    *types.Package
 	done   bool
+	fuel   bool // self-recursive: takes a fuel argument that bounds unfolding by E-matching
 }
 
 type pureFunc struct {
@@ -406,6 +407,11 @@ func (P *Prog) specInfo(sf *SpecFunc) (*specInfo, error) {
 	pkg := P.pkgOf(sf.Pkg)
 	si := &specInfo{sf: sf, sym: "sp_" + sanitize(sf.Name), pkg: pkg}
 	P.specInfos[sf] = si
+	if sf.Body != nil && !sf.Macro {
+		var rc []recCall
+		collectRecCalls(sf.Name, sf.Body, nil, nil, &rc)
+		si.fuel = len(rc) > 0
+	}
 	for _, b := range sf.Params {
 		t, err := P.resolveType(pkg, b.Type)
 		if err != nil {
@@ -453,6 +459,10 @@ func (P *Prog) specInfo(sf *SpecFunc) (*specInfo, error) {
 		return si, nil
 	}
 	// register the module first (recursion), then elaborate the body
+	if si.fuel {
+		ps = append([]string{"Fuel"}, ps...)
+		env.fuelSelf = sf.Name
+	}
 	m := P.addModule(si.sym, fmt.Sprintf("(declare-fun %s (%s) %s)", si.sym, strings.Join(ps, " "), rs))
 	body, err := env.elab(sf.Body)
 	if err != nil {
@@ -468,6 +478,15 @@ func (P *Prog) specInfo(sf *SpecFunc) (*specInfo, error) {
 		m.axioms = []string{fmt.Sprintf("(assert (= %s %s))", si.sym, body.T.S)}
 	} else if !recursive {
 		m.decl = fmt.Sprintf("(define-fun %s (%s) %s %s)", si.sym, strings.Join(qs, " "), rs, body.T.S)
+	} else if si.fuel {
+		// fuel-limited unfolding: f(S(ly), x) = body[f(ly, .)] and f(S(ly), x) = f(ly, x)
+		call := fmt.Sprintf("(%s (FS ly) %s)", si.sym, strings.Join(as, " "))
+		low := fmt.Sprintf("(%s ly %s)", si.sym, strings.Join(as, " "))
+		q := "(ly Fuel) " + strings.Join(qs, " ")
+		m.axioms = []string{
+			fmt.Sprintf("(assert (forall (%s) (! (= %s %s) :pattern (%s))))", q, call, body.T.S, call),
+			fmt.Sprintf("(assert (forall (%s) (! (= %s %s) :pattern (%s))))", q, call, low, call),
+		}
 	} else {
 		call := fmt.Sprintf("(%s %s)", si.sym, strings.Join(as, " "))
 		m.axioms = []string{fmt.Sprintf("(assert (forall (%s) (! (= %s %s) :pattern (%s))))", strings.Join(qs, " "), call, body.T.S, call)}
